@@ -28,9 +28,52 @@ def _workfile(name):
 # kx
 # ------------------------------------------------------------------------------------------------
 
-def kx_leg(agg, which, mode, profile, prop, features=()):
-    binary = build("kx", profile, features)
-    o = _json_out([binary, which, "--mode", mode, "--out", _workfile("kx-%s-%s" % (which, profile)), "--threads", str(NCPU)], _workfile("kx-%s-%s" % (which, profile)))
+def _kx_crash(agg, binary, which, mode, profile, features, prop, rc, err, beacon, san, env=None):
+    """The sweep process died. Candidates = the input every worker thread was evaluating (beacon slots); each is replayed
+    twice in isolation; a candidate that kills the process both times is a verdict, otherwise the crash is a machinery error."""
+    import struct
+    data = open(beacon, "rb").read() if os.path.exists(beacon) else b""
+    cands = []
+    for i in range(0, len(data) - 31, 32):
+        kind, st, key, gen, world = struct.unpack("<5I", data[i:i + 20])
+        if kind in (3, 14) and (kind, st, key, gen, world) not in cands:
+            cands.append((kind, st, key, gen, world))
+    confirmed = []
+    for kind, st, key, gen, world in cands:
+        cmd = [binary, "replay-c03", str(st), str(key), str(gen), str(world)] if kind == 3 else [binary, "replay-c14", str(key), str(gen)]
+        rcs = [run(cmd, timeout=300, env=env)[0] for _ in range(2)]
+        if all(r not in (0, 1) for r in rcs):
+            confirmed.append((kind, st, key, gen, world, rcs[0]))
+    if not confirmed:
+        raise MachineryError("kx %s (%s, %s) died with rc=%s and no candidate input reproduces the crash in isolation: %s" % (which, mode, profile, rc, (err or "")[-800:]))
+    for kind, st, key, gen, world, r in confirmed[:3]:
+        names = ["empty(cap 4)", "capacity 0", "full(cap 4)", "mixed(free slots with matching generations)"]
+        agg["violations"].append({"prop": prop, "oracle": "process-crash:rc=%s" % r, "engine": "kx", "history": None, "profile": profile, "features": list(features),
+                                  "msg": "the sweep process died (rc=%s%s) while pushing the forged value (key %#x, generation %d) through the safe API in state '%s'; the same input kills the process twice in isolation. stderr tail: %s"
+                                         % (r, ", sanitizer" if san else "", key, gen, names[st] if kind == 3 else "-", (err or "").strip()[-300:]),
+                                  "extra": {"sweep": "c03" if kind == 3 else "c14", "profile": profile, "features": list(features), "sanitizer": san, "input": {"state": names[st] if kind == 3 else "", "key": key, "gen": gen, "world_level": world}}})
+    return {"evaluations": 0, "config": "crashed", "detail": {"samples": []}, "violations": [], "wall_s": 0.0, "crashed": True}
+
+
+def kx_leg(agg, which, mode, profile, prop, features=(), san=None):
+    if san == "asan":
+        binary = build("kx", profile, features, toolchain="nightly", rustflags_extra="-Zsanitizer=address", target_sub="asan", extra_args=("--target=x86_64-unknown-linux-gnu",))
+    else:
+        binary = build("kx", profile, features)
+    outp = _workfile("kx-%s-%s%s" % (which, profile, "-" + san if san else ""))
+    beacon = outp + ".beacon"
+    env = env_base()
+    if san == "asan":
+        env["ASAN_OPTIONS"] = "exitcode=77:detect_leaks=0:abort_on_error=0"
+    if os.path.exists(outp):
+        os.remove(outp)
+    rc, out, err = run([binary, which, "--mode", mode, "--out", outp, "--threads", str(NCPU), "--beacon", beacon], timeout=7200, env=env)
+    if not os.path.exists(outp):
+        if rc in (0, 1, 2):
+            raise MachineryError("engine produced no result (rc=%s): kx %s\n%s" % (rc, which, (err or "")[-1500:]))
+        o = _kx_crash(agg, binary, which, mode, profile, features, prop, rc, err, beacon, san, env=env)
+    else:
+        o = json.load(open(outp))
     agg["evaluations"] += o["evaluations"]
     agg["legs"].append({"engine": "kx", "sweep": which, "mode": mode, "config": "%s[%s] %s" % (profile, ",".join(features), o["config"]), "evaluations": o["evaluations"], "detail": {k: v for k, v in o["detail"].items() if k != "samples"}, "wall_s": round(o["wall_s"], 2)})
     for s in o["detail"].get("samples", [])[:3]:
@@ -202,6 +245,9 @@ def px_conformance(agg, prop, tier, features=(), cfgflags=None):
                     try:
                         m = json.loads(line)
                     except Exception:
+                        if line.lstrip().startswith("{"):
+                            # a report line of the runner that does not parse must never be dropped silently
+                            raise MachineryError("conformance binary %s printed a report line that is not JSON: %s" % (b, line[:300]))
                         continue
                     if m["kind"] == "done":
                         done += 1
@@ -359,6 +405,8 @@ def check_c03(tier, seed, t0):
     agg.setdefault("evaluations", 0)
     kx_leg(agg, "c03", "boundary", "chk", "C03")
     kx_leg(agg, "c03", "boundary" if tier == "quick" else "full", "rel", "C03")
+    # the boundary sweep once more under AddressSanitizer (no debug assertions): silent out-of-bounds reads become process deaths
+    kx_leg(agg, "c03", "boundary", "rel", "C03", san="asan")
     if not agg["violations"]:
         if agg.get("unconfirmed"):
             raise MachineryError("violations were observed that do not replay deterministically, and nothing else was found: " + " | ".join(agg["unconfirmed"][:3]))
@@ -471,15 +519,22 @@ def replay(rp):
     ex = rp.get("extra") or {}
     eng = rp.get("engine")
     if eng == "kx":
-        binary = build("kx", ex.get("profile", "rel"), tuple(ex.get("features") or ()))
+        env = env_base()
+        if ex.get("sanitizer") == "asan":
+            binary = build("kx", ex.get("profile", "rel"), tuple(ex.get("features") or ()), toolchain="nightly", rustflags_extra="-Zsanitizer=address", target_sub="asan", extra_args=("--target=x86_64-unknown-linux-gnu",))
+            env["ASAN_OPTIONS"] = "exitcode=77:detect_leaks=0:abort_on_error=0"
+        else:
+            binary = build("kx", ex.get("profile", "rel"), tuple(ex.get("features") or ()))
         inp = ex["input"]
         if ex["sweep"] == "c14":
             cmd = [binary, "replay-c14", str(inp["key"]), str(inp["gen"])]
         else:
             which = {"empty(cap 4)": 0, "capacity 0": 1, "full(cap 4)": 2}.get(inp.get("state"), 3)
-            cmd = [binary, "replay-c03", str(which), str(inp["key"]), str(inp["gen"])]
-        rc, out, err = run(cmd)
+            cmd = [binary, "replay-c03", str(which), str(inp["key"]), str(inp["gen"]), str(inp.get("world_level", 1))]
+        rc, out, err = run(cmd, env=env)
         print(out)
+        if rc not in (0, 1):
+            print("process died with rc=%s\n%s" % (rc, (err or "")[-2000:]))
         return 1 if rc != 0 else 0
     if eng == "wx":
         binary = build("wx", ex.get("profile", "chk"), tuple(ex.get("features") or ()))
